@@ -747,6 +747,12 @@ func (n *RegexNode) eliminateEndingBacktracking() {
 	if verifRewritesOff() {
 		return
 	}
+	// The analysis below (which node runs last, what can follow a loop) reads the tree
+	// left to right; it has not been validated for right-to-left nodes (lookbehinds,
+	// atomic groups of a RightToLeft pattern).
+	if n.Options&RightToLeft != 0 {
+		return
+	}
 	// Walk the tree starting from the current node.
 	node := n
 	for {
